@@ -2,6 +2,21 @@
 # are listed in CLAIMED; everything else must have a reason in NOT_APPLICABLE.
 
 CLAIMED = {
+    "C02": dict(
+        level="other",
+        text="Structural necessary conditions of a closed, self-consistent package: (R2.1) none of the 147 lazyproperties caches a "
+             "value derived from a field that is reassigned after construction (transitive field reads through properties, "
+             "receiver-typed setter store sites, transient objects exempt) - this is the rule that exposes stale relationship "
+             "targets after slide renaming; (R2.2) every value written into an r:* attribute, by attribute store or template hole, "
+             "has relationship-machinery provenance; (R2.3) every part constructed outside the loader is named by an allocator "
+             "and reaches relate_to in its function or in all typed callers; (R2.4) drop_rel sites remove the referencing element; "
+             "(R2.5) constructed content types map back to the constructing class in the registry; (R2.6) the writer derives "
+             "content types and members from one part sequence, writes rels items and package rels. NOT decided: closure of the "
+             "part graph under arbitrary histories, reference counting of r:embed in drop_rel, equality of re-opened content.",
+        technique="static analysis: field-dependency analysis of memoised getters, provenance (taint) of relationship ids, "
+                  "typed caller analysis of part construction, table agreement",
+        design="DESIGN.md §4 C02",
+    ),
     "C03": dict(
         level="other",
         text="Decides the structural clauses of validity: (R3.1) every XML template the library parses is evaluated abstractly to a "
